@@ -44,7 +44,8 @@ ASSUMPTIONS = ['a long-poll may legitimately take ping_interval+ping_timeout; '
                'oracle (statement: non-upgrade requests)']
 REQUIRED = ['request_completion', 'status_set', 'gateway_protocol',
             'api_completion', 'background_exceptions', 'wsgi_validator',
-            'history_probes', 'odd_requests', 'preempt_scenarios',
+            'history_probes', 'odd_requests', 'slow_handler_disconnects',
+            'preempt_scenarios',
             'preemptions']
 SHARD_TIMEOUT = {'quick': 500, 'thorough': 3400}
 
@@ -372,6 +373,52 @@ def run_api(rec, case):
         sim.teardown()
 
 
+def run_slowdisc(rec, case):
+    """disconnect(sid) / disconnect() while the application's disconnect
+    handler takes a while, and the polling client's next long-poll arrives
+    during it: the poll collects the CLOSE packet and the call returns."""
+    srv, call, when = case['slowdisc']
+    rec.evaluations += 1
+    rec.count('slow_handler_disconnects')
+    rec.key('slowdisc/%s/%s/%s' % (srv, call, when))
+    sim = scen.make_sim(srv, server_kwargs={'ping_interval': PI,
+                                            'ping_timeout': PT},
+                        handler_cfg={'suspend': {'disconnect': 0.5}})
+    desc = 'SLOW-HANDLER %s poll arrives %s server=%s' % (call, when, srv)
+
+    def V(key, msg):
+        rec.viol(key, msg + ' | ' + desc, case)
+    try:
+        h = sim.open_polling()
+        p = None
+        if when == 'before':
+            p = sim.poll(h)
+            sim.quiesce()
+        t = sim.app_call('disconnect', *([h.sid] if call == 'sid' else []))
+        sim.quiesce()
+        if when == 'during':
+            sim.advance(0.25)
+            p = sim.poll(h)
+            sim.quiesce()
+        sim.advance(1.0)
+        sim.quiesce()
+        if not p.done or p.code != 200 or '1' not in p.text().split(gen.SEP):
+            V('poll-during-disconnect-refused', 'the long-poll that arrived '
+              '%s the disconnect handler ran was answered done=%r status=%r '
+              'body=%r instead of collecting the CLOSE packet' % (
+                  when, p.done, p.status, (p.body or b'')[:40]))
+        if not t.done:
+            V('disconnect-hangs-although-client-polled', 'disconnect() has '
+              'not returned 1 s after its handler finished although the '
+              'client polled: blocked in %s' % scen.hang_signature(sim, t))
+        elif t.exc is not None:
+            V('api-raises-%s-disconnect' % type(t.exc).__name__,
+              'disconnect raised %r' % (t.exc,))
+        judge_background(rec, sim, V)
+    finally:
+        sim.teardown()
+
+
 def run_hist(rec, case):
     """Requests of the cross product and API calls issued at seeded points of
     a generated session history (polls pending or not, mid-handshake,
@@ -572,6 +619,8 @@ def dispatch(rec, case):
         run_api(rec, case)
     elif 'odd' in case:
         run_odd(rec, case)
+    elif 'slowdisc' in case:
+        run_slowdisc(rec, case)
     elif 'i' in case:
         run_hist(rec, case)
     else:
@@ -593,6 +642,10 @@ def plan(tier, seed):
         for st in API_STATES:
             for srv in SRV:
                 cases.append({'api': [call, st, srv]})
+    for srv in SRV:
+        for call in ('sid', 'all'):
+            for when in ('before', 'during'):
+                cases.append({'slowdisc': [srv, call, when]})
     for iodd in range(len(ODD)):
         for im in range(len(METHODS)):
             for ist in (0, 1, 2, 3, 5):
